@@ -1,6 +1,6 @@
 """C20 - calibration reprices its target; derived parameters stay in sync with updates.
 
-Three sub-checks, all complete enumerations of the stated finite spaces on the real code.
+Four sub-checks, all complete enumerations of the stated finite spaces on the real code.
 
  calib-atm / calib-default / calib-product   (lattice sweep)
      exponential models of the four calibratable types (HEM, Merton, CGMY, VG) x start parameter sets (2; CGMY 5 in the
@@ -13,6 +13,20 @@ Three sub-checks, all complete enumerations of the stated finite spaces on the r
                 of a freshly constructed model of the same type at a known parameter value x* inside the interval (so a
                 solution exists), and with a forward target (market price = model forward, and model forward + 1: the
                 forward does not depend on the parameter, no root)
+     plus, on the first start set and the first (r, d, spot) (thorough: both start sets, every parameter of the menu):
+       other maturities / volatilities   (T, vol) in {(1/52, .2), (1/12, .2), (3, .2), (1, .05), (1, .6), (.25, omitted), (1, omitted)}
+                (thorough: {1/365, 1/52, 1/12, .25, 1, 3, 10} x {.05, .2, .6, omitted}); bs_sigma omitted = the default
+                written in the function's signature is the volatility requested
+       construction routes of the INPUT model: creator (utils.create_exponential_of_levy_model), reinit (a parameters object
+                built with other values, every attribute re-assigned, initialisation(), model constructor: what the
+                calibration helpers themselves do), deepcopy, pickle round trip, calibrated (the model returned by a
+                first run_default_calibration is calibrated again)
+       other market data  (r, d, spot) in {(0, 0, 1), (0.01, 0.04, 80)} (no rates and unit spot; d > r)
+       call forms  positional arguments; the interval as a list; the interval in decreasing order (a returned value is
+                judged, a raise is not: the statement does not say a decreasing interval must be accepted); a product the
+                COS pricer does not support (library Digital payoff: only "input untouched" is judged)
+       the CGMY start sets of the library's own scripts (scripts/mlmc/tools/utils.py, scripts/statistics/ctmc/levy_copula.py:
+                y = 0.2, 1.2, 1.5, 0.3 with spot 80, c = 10), called as the scripts call (maturity 3/12, bs_sigma omitted)
      oracle, evaluated on models *constructed directly* from parameter values (never on the calibration's own objects):
        - a returned value is a finite real inside the interval; the COS price of the product under the model constructed
          with that value equals the market price within 4 x slope x (brentq xtol + rtol|x|) + 1e-8 max(1, |price|), the
@@ -21,44 +35,82 @@ Three sub-checks, all complete enumerations of the stated finite spaces on the r
          continuity) that is a violation; a raise without a bracketed root is what the statement allows;
        - run_default_calibration returns an object of the input's class whose parameter lies in the default interval, whose
          ATM call (COS) equals the Black-Scholes closed form (re-derived here with math.erf), and which behaves like the
-         model constructed directly from its parameter values (cached fields, exponent, masses, drifts);
-       - a deep snapshot (float.hex of every number reachable from the input model) is identical before and after, whether
-         the call returned or raised.
-     On the installed numpy (2.5) scipy's brentq refuses an objective that returns a 1-element array, which is what
-     COSPricer.call/put return: every vanilla-target calibration raises TypeError. That is reported once per function
-     (failure class raises-although-root-bracketed:TypeError); the case is then re-run with the name `COSPricer` in
-     rpylib.model.utils bound to a subclass whose price() squeezes the result to a float, so that the rest of the oracle is
-     still evaluated (counter seam_reruns; stated in ASSUMPTIONS).
+         model constructed directly from its parameter values (cached fields, exponent, masses, drifts; observed on models
+         rebuilt from its parameters object AND on the returned object itself);
+       - the input model is untouched, whether the call returned or raised: (a) a deep snapshot taken immediately after the
+         call (float.hex of every number reachable from the model through instance dictionaries, containers, arrays, and
+         the values read through the settable properties of every class met - the constraint properties of
+         tools/parameter.py - wherever the library keeps them) is identical to the one taken before; (b) afterwards the
+         model still behaves like a model constructed directly with the values it was built from: its public parameter
+         values and spot / r / d, Levy exponent at 4 points, density, masses, cumulants, drifts, omega, log characteristic
+         function, mean, two COS prices, observed on the object itself, and the same battery on models rebuilt from its
+         parameters object.
+     On numpy 2.5 scipy's brentq refuses an objective that returns a 1-element array; the library now squeezes the COS
+     price itself.  Should the TypeError come back it is reported once per function (failure class
+     raises-although-root-bracketed:TypeError) and the case is re-run with the name `COSPricer` in rpylib.model.utils bound
+     to a subclass whose price() squeezes the result to a float (counter seam_reruns; stated in ASSUMPTIONS).
+
+ calib-history   (all operation sequences up to a length bound on ONE scene of re-used objects)
+     scene per family: A = first start set, B = same family, second start set, same market data, C = a model with other
+     market data (0.05, 0.02, 80) built ON A's PARAMETERS OBJECT (shared), D = a model of the next family.  Operations:
+     run_default_calibration(A, T=1, vol=.2) | (A, T=.25, bs_sigma omitted) | calibrate_..._to_atm_call(A, second parameter
+     of the menu) | calibrate_model_parameter(A, put 1.1) | run_default_calibration(B) | (D) | (C) (all three with the SAME
+     T / vol as the first: a memo keyed on too little shows) | use A (the behaviour battery above) | continue on a deep copy
+     of A (the original stays in the scene) | adopt: A := the model returned by the last default calibration of A.
+     quick: every valid sequence of length <= 2, and every calibration - {use, deepcopy, adopt} - calibration triple;
+     thorough: every valid sequence of length <= 3 (valid = adopt has a default calibration of A before it, and at least one
+     calibration occurs).  Oracle: every calibration is judged as above on directly constructed models (so a value that
+     leaked from another call does not reprice); the deep snapshot of EVERY model of the scene (the one given and the
+     others, copies and shared-parameter siblings included) is identical before / immediately after every calibration; at
+     the end every model of the scene passes the behaviour battery against a directly constructed twin.
 
  assign   (explicit-state search, core.bfs)
      per Parameters class (HEM, Merton, VG, CGMY, Black-Scholes): state = history of events on one parameters object built
-     by the public constructor with the library's default values; events = setattr(attribute, value) for 2-3 values per
-     attribute (legal ones, the legal boundary of a non-strict constraint, and one illegal value where a constraint is
-     declared) and initialisation(); depth <= 3 (quick) / 4 (thorough).  Canonical state = complete vars() of the object
-     (float.hex) + "initialisation() completed since the last successful assignment": vars() is the whole state of such an
-     object, so merged states have equal futures.
+     by the public constructor with the library's default values; events = setattr(attribute, value) for 2-4 values per
+     attribute (legal ones, the legal boundary of a non-strict constraint, one illegal value where a constraint is
+     declared, nan on one constrained attribute per class), initialisation(), interlude (USE the object: build the Levy and
+     the exponential model from it and evaluate the whole battery; then build, re-assign, initialise and use a SECOND
+     object of the same class), copy (continue on copy.deepcopy of the object), pickle (continue on a pickle round trip);
+     depth <= 3 (quick) / 4 (thorough).  Canonical state = complete vars() of the object (float.hex) + its public
+     parameter values + "initialisation() completed since the last successful assignment" + "has been used" + "is a copy":
+     vars() and the public values are the whole state of such an object, so merged states have equal futures.
      invariants on every transition:
-       - an illegal value raises ValueError and leaves vars() unchanged; a legal value is stored, reads back, and changes
-         no other entry (legality = the constraint declared in the class, with the meaning given by its error message:
-         positive x>=0, strictly positive x>0, strictly less than 2 x<2);
+       - an illegal value raises ValueError and leaves vars() and the public values unchanged; a legal value is stored,
+         reads back, and changes no other parameter (legality = the constraint declared in the class, with the meaning
+         given by its error message: positive x>=0, strictly positive x>0, strictly less than 2 x<2; nan satisfies none);
+       - the public constructor enforces the same constraints on the assignments it makes (every menu value, the other
+         attributes at their start values);
        - initialisation() raises iff the constructor raises for the same values;
-       - whenever initialisation() has completed since the last assignment: the object's derived entries equal those of a
-         freshly constructed parameters object with the same values, and the Levy model and the exponential model built
-         from the updated object give the same observations as those built from the fresh one: levy_exponent at 4 points,
-         density at 2, mass on 4 intervals, cumulants 1/2/4/6, process_drift, triplet (a, sigma, representation), omega,
-         drift, log characteristic function (an observation is a value or the type of the exception raised).
+       - an interlude changes neither the public values nor (its second half) anything of the object; an object left
+         behind by copy / pickle never changes afterwards; a copy holds the same public values;
+       - whenever initialisation() has completed since the last assignment (whatever happened before: use, copies ...):
+         the object's derived entries equal those of a freshly constructed parameters object with the same values (entries
+         are read after both objects have been used in the same way; an entry existing on one side only is noted, not
+         judged), its public data attributes (dir(), non-callable) agree, and the Levy model and the exponential model
+         built from the updated object give the same observations as those built from the fresh one: levy_exponent at 4
+         points, density at 2, mass on 4 intervals, cumulants 1/2/4/6, process_drift, triplet (a, sigma, representation),
+         omega, drift, log characteristic function (an observation is a value or the type of the exception raised);
+       - at the end of the search the reference of every value combination met is constructed once more and must give the
+         observations it gave when first constructed (class-level / module-level memory shows here).
 
- constraints   every factory of rpylib/tools/parameter.py on a scratch class x an alphabet of values around its bound(s)
-     x {first assignment, assignment after a legal one}: accepted iff the documented relation holds; rejected with
-     ValueError and the previous value kept.
+ constraints   every factory of rpylib/tools/parameter.py x an alphabet of values around its bound(s) (the bound and its two
+     float neighbours, ordinary values, -0.0, Python ints, numpy scalars, nan, +-inf; for the sequence factories lists,
+     tuples, numpy arrays, the empty sequence, sequences holding nan / inf) x assignment route {first assignment, after every
+     legal value, inside a constructor, on a deep copy of an instance holding a legal value, on an instance of a subclass,
+     while a second instance holds a legal value, on a class with a second constrained attribute of the same factory (bounds
+     shifted by 10) assigned before and after}: accepted iff the documented relation holds (nan satisfies no relation);
+     rejected with ValueError and the previous value kept; no other instance / attribute / original of the copy changes.
 
 Not a defect by this statement (observed, not asserted): the order of the interval end points (brentq accepts a > b), the
 content of utils.default_calibration (the library's own table defines "the default interval"; a difference from the table
-in this module is recorded as a note).
+in this module is recorded as a note), the value of the default bs_sigma (read from the signature).
 
-Outside the alphabet (statement silent): vector strikes, products other than call/put/forward, models built *before* an
-assignment (they alias the parameters object), VG nu/theta (no constraint declared: any value is legal; nu = 0 is not
-probed), HEM eta1 = 1, intervals leaving the admissible domain of the parameter.
+Outside the alphabet (statement silent): vector strikes, Product.notional, models built *before* an assignment (they alias
+the parameters object), VG nu/theta (no constraint declared: any value is legal; nu = 0 is not probed), HEM eta1 = 1,
+intervals leaving the admissible domain of the parameter, the Black-Scholes model as calibration input (it has no
+parameters object: every calibration function raises AttributeError), assignments to spot / r / d of an existing
+exponential model (no initialisation() exists for them), the constraint properties of classes outside the anchored files
+(LevyTriplet.sigma, grid num, copula theta / eta).
 """
 from __future__ import annotations
 
@@ -73,10 +125,12 @@ from mc import core
 PID = "C20"
 LEVEL = "model_checking"
 RULE = (
-    "complete product family x start set x rates x calibrated parameter x maturity x target (calibration), BFS over all "
-    "assignment/initialisation histories up to the depth bound per Parameters class, complete product factory x value x "
-    "history (constraints); a case is non-trivial when a calibration returned and was re-priced on a fresh model or raised "
-    "and the bracket was examined, or when at least one updated-vs-fresh model comparison was made; distinct = case dict"
+    "complete product family x start set x rates x calibrated parameter x maturity x target x construction route x call form "
+    "(calibration), every valid operation sequence up to the length bound on one scene of re-used / shared / copied models "
+    "(calibration histories), BFS over all assignment / initialisation / use / copy histories up to the depth bound per "
+    "Parameters class, complete product factory x value x assignment route (constraints); a case is non-trivial when a "
+    "calibration returned and was re-priced on a fresh model or raised and the bracket was examined, or when at least one "
+    "updated-vs-fresh model comparison was made; distinct = case dict"
 )
 ASSUMPTIONS = [
     "existence of a solution is decided by a sign change of the freshly computed objective at the two interval ends "
@@ -84,8 +138,12 @@ ASSUMPTIONS = [
     "or raises'",
     "when scipy.brentq rejects the library's 1-element-array objective (TypeError on numpy >= 2.5) the case is reported and "
     "re-run with rpylib.model.utils.COSPricer bound to a subclass whose price() returns float(np.squeeze(price))",
-    "legality of an assigned value is the constraint declared in the Parameters class read as its error message states",
-    "assignment search: 2-3 values per attribute, depth as stated; r=0.02, d=0, spot=100 for the exponential models there",
+    "legality of an assigned value is the constraint declared in the Parameters class read as its error message states; nan "
+    "satisfies no relation",
+    "assignment search: 2-4 values per attribute, depth as stated; r=0.02, d=0, spot=100 for the exponential models there",
+    "bs_sigma omitted: the volatility requested is the default value written in the signature of the function called",
+    "a deep copy and a pickle round trip of a parameters object / of a model are the same parameters / model (the library "
+    "deep-copies parameters in its calibration helpers and ships models to worker processes)",
 ]
 CHUNK = 4
 
@@ -110,6 +168,12 @@ STARTS = {
         {"c": 1.0, "g": 15.0, "m": 20.0, "y": -0.5},
         {"c": 0.1, "g": 5.0, "m": 7.0, "y": 1.0},
         {"c": 1.0, "g": 15.0, "m": 20.0, "y": 0.0},
+        # 5-9: the sets the library's scripts calibrate from (see SCRIPT_CGMY)
+        {"c": 1.23, "g": 15.0, "m": 20.0, "y": 0.2},
+        {"c": 0.019, "g": 2.0, "m": 4.0, "y": 1.2},
+        {"c": 0.007, "g": 2.0, "m": 4.0, "y": 1.5},
+        {"c": 0.01, "g": 15.0, "m": 20.0, "y": 0.3},
+        {"c": 10.0, "g": 15.0, "m": 20.0, "y": 0.5},
     ],
     "vg": [
         {"sigma": 0.1, "nu": 0.06, "theta": 0.1},
@@ -137,6 +201,13 @@ def _mt(fam):
             "bs": ModelType.BLACKSCHOLES}[fam]
 
 
+# start sets beyond the first two of STARTS that the library's own scripts calibrate from (scripts/mlmc/tools/utils.py,
+# scripts/statistics/ctmc/levy_copula.py): (index in STARTS["cgmy"], spot)
+SCRIPT_CGMY = [(5, 100.0), (6, 100.0), (7, 100.0), (8, 80.0), (9, 100.0)]
+EXTRA_TV = [(1.0 / 52, 0.2), (1.0 / 12, 0.2), (3.0, 0.2), (1.0, 0.05), (1.0, 0.6), (0.25, None), (1.0, None)]
+EXTRA_ENV = [(0.0, 0.0, 1.0), (0.01, 0.04, 80.0)]  # no rates / unit spot; dividend yield above the rate, the scripts' other spot
+
+
 def cases(tier):
     thorough = tier == "thorough"
     out = []
@@ -160,7 +231,7 @@ def cases(tier):
     Ts = [0.25, 1.0]
     vols = [0.1, 0.2, 0.35]
     for fam in FAMILIES:
-        starts = range(len(STARTS[fam])) if thorough else range(2)
+        starts = range(5 if fam == "cgmy" else 2) if thorough else range(2)
         for ei, (r, d, spot) in enumerate(env):
             for s in starts:
                 for T in Ts:
@@ -185,6 +256,63 @@ def cases(tier):
                                     continue
                                 out.append({"sub": "calib-product", "family": fam, "start": s, "r": r, "d": d,
                                             "spot": spot, "param": pi, "T": T, "kind": kind, "k": k, "frac": frac})
+    # ---- rarely used options and construction routes (fields absent from a case dict mean: route ctor, keyword call,
+    #      interval given as an increasing tuple)
+    r, d, spot = env[0]
+    base = {"r": r, "d": d, "spot": spot}
+    for fam in FAMILIES:
+        n_par = len(CALIB[fam])
+        # other maturities / volatilities / bs_sigma omitted
+        tv = [(T, v) for T in [1.0 / 365, 1.0 / 52, 1.0 / 12, 0.25, 1.0, 3.0, 10.0] for v in [0.05, 0.2, 0.6, None]
+              if not (T in Ts and v == 0.2)] if thorough else EXTRA_TV
+        for s in (range(2) if thorough else range(1)):
+            for T, vol in tv:
+                out.append(dict(base, sub="calib-default", family=fam, start=s, T=T, vol=vol))
+                for pi in range(n_par if thorough else 1):
+                    out.append(dict(base, sub="calib-atm", family=fam, start=s, param=pi, T=T, vol=vol))
+        # the input model reached by another public route
+        for route in ROUTES[1:]:
+            for s in (range(2) if thorough else range(1)):
+                for T in Ts:
+                    out.append(dict(base, sub="calib-default", family=fam, start=s, T=T, vol=0.2, route=route))
+                    for pi in range(n_par if thorough else 2):
+                        if not thorough and pi > 0 and T != 1.0:
+                            continue
+                        out.append(dict(base, sub="calib-atm", family=fam, start=s, param=pi, T=T, vol=0.2, route=route))
+                out.append(dict(base, sub="calib-product", family=fam, start=s, param=0, T=0.25, kind="put", k=1.1, frac=0.3,
+                                route=route))
+        # other market data
+        for (r2, d2, spot2) in EXTRA_ENV:
+            b2 = {"r": r2, "d": d2, "spot": spot2}
+            for T in Ts:
+                out.append(dict(b2, sub="calib-default", family=fam, start=0, T=T, vol=0.2))
+                out.append(dict(b2, sub="calib-atm", family=fam, start=0, param=n_par - 1, T=T, vol=0.2))
+            out.append(dict(b2, sub="calib-product", family=fam, start=0, param=0, T=0.25, kind="put", k=1.1, frac=0.3))
+            out.append(dict(b2, sub="calib-product", family=fam, start=0, param=0, T=0.25, kind="call", k=0.9, frac=0.7))
+        # call forms: positional arguments, the interval as a list / in decreasing order, an unsupported product
+        for T in (Ts if thorough else [0.25]):
+            out.append(dict(base, sub="calib-default", family=fam, start=0, T=T, vol=0.2, form="positional"))
+            out.append(dict(base, sub="calib-default", family=fam, start=0, T=T, vol=None, form="positional"))
+            out.append(dict(base, sub="calib-atm", family=fam, start=0, param=0, T=T, vol=0.2, form="positional"))
+            out.append(dict(base, sub="calib-product", family=fam, start=0, param=0, T=T, kind="put", k=1.1, frac=0.3,
+                            form="positional"))
+            for pi in range(n_par):
+                for iform in ("list", "reversed"):
+                    out.append(dict(base, sub="calib-atm", family=fam, start=0, param=pi, T=T, vol=0.2, interval_form=iform))
+            out.append(dict(base, sub="calib-product", family=fam, start=0, param=0, T=T, kind="unsupported", k=1.0, frac=0.3))
+    # the start sets of the library's scripts, called as the scripts call (maturity 3/12, bs_sigma omitted), and at T = 1
+    for s, spot2 in SCRIPT_CGMY:
+        for T, vol in [(0.25, None), (1.0, 0.2)]:
+            out.append({"sub": "calib-default", "family": "cgmy", "start": s, "r": 0.02, "d": 0.0, "spot": spot2, "T": T,
+                        "vol": vol})
+            if thorough:
+                for route in ROUTES[1:]:
+                    out.append({"sub": "calib-default", "family": "cgmy", "start": s, "r": 0.02, "d": 0.0, "spot": spot2,
+                                "T": T, "vol": vol, "route": route})
+    # histories of calibrations on re-used / shared / copied models
+    for fam in FAMILIES:
+        for seq in _history_cases(tier):
+            out.append({"sub": "calib-history", "family": fam, "ops": seq})
     return out
 
 
@@ -231,8 +359,25 @@ def snap(x, _seen=None):
         if id(x) in _seen:
             return ("ref", type(x).__name__)
         _seen.add(id(x))
-        return ("o", type(x).__name__, snap(vars(x), _seen))
+        d = dict(vars(x))
+        d.update(_settable_properties(x))
+        return ("o", type(x).__name__, snap(d, _seen))
     return ("repr", repr(x))
+
+
+def _settable_properties(x):
+    """Public values read through the class's settable properties (the constraint properties of tools/parameter.py are
+    such): part of the state of an object wherever the library happens to keep them (instance dict, descriptor, ...)."""
+    out = {}
+    for klass in type(x).__mro__:
+        for name, attr in vars(klass).items():
+            key = "<property> " + name
+            if isinstance(attr, property) and attr.fset is not None and key not in out:
+                try:
+                    out[key] = getattr(x, name)
+                except Exception as e:  # never assigned yet
+                    out[key] = "<raises " + type(e).__name__ + ">"
+    return out
 
 
 def snap_diff(a, b, path="", out=None, limit=6):
@@ -358,8 +503,6 @@ def observe_models(fam, parameters, r=0.02, d=0.0, spot=100.0):
     """Observations of the Levy model and of the exponential model built from `parameters` (a Parameters object)."""
     cl = _classes(fam)
     obs = {}
-    for k, v in sorted(derived_fields(fam, parameters).items()):
-        obs["field:" + k] = _obs(lambda v=v: v)
     models = {}
     if fam != "bs":
         try:
@@ -391,7 +534,99 @@ def observe_models(fam, parameters, r=0.02, d=0.0, spot=100.0):
             obs["exp:drift"] = _obs(lambda: float(m.drift()))
             obs["exp:logcf(1,0.7)"] = _obs(lambda: complex(m.log_characteristic_function(1.0, 0.7)))
             obs["exp:mean(1)"] = _obs(lambda: float(m.mean(1.0)))
+    # the derived entries are read AFTER the object has been used, on the updated object and on the fresh one alike: an
+    # entry that is filled on first use is then filled on both sides
+    # every public data attribute of the parameters object, however it is provided (instance entry, property, ...)
+    for k in sorted(n for n in dir(parameters) if not n.startswith("_")):
+        try:
+            v = getattr(parameters, k)
+        except Exception as e:
+            obs["public:" + k] = ("raises", type(e).__name__)
+            continue
+        if not callable(v):
+            obs["public:" + k] = _obs(lambda v=v: v)
+    for k, v in sorted(derived_fields(fam, parameters).items()):
+        obs["field:" + k] = _obs(lambda v=v: v)
     return obs
+
+
+OBS_T = 0.5  # maturity of the two COS prices observed on an existing exponential model
+
+
+def observe_exp_model(fam, m):
+    """Observations made directly on an EXISTING exponential model object (nothing is rebuilt): what a user of that model
+    sees.  Used to decide whether a model that a calibration was given still behaves like a model constructed directly
+    with the values it was built from."""
+    from rpylib.numerical.cosmethod import COSPricer
+
+    obs = {}
+    lm = m.levy_model
+    for k in ATTRS[fam]:
+        obs["parameter:" + k] = _obs(lambda k=k: getattr(lm.parameters, k))
+    for k in ("spot", "r", "d"):
+        obs["market:" + k] = _obs(lambda k=k: float(getattr(m, k)))
+    for u in U_POINTS:
+        obs[f"levy_exponent({u})"] = _obs(lambda: complex(lm.levy_exponent(u)))
+    for x in (-0.1, 0.2):
+        obs[f"density({x})"] = _obs(lambda: float(m.levy_triplet.nu(x)))
+    for (a, b) in MASS_INTERVALS:
+        obs[f"mass({a},{b})"] = _obs(lambda: float(m.mass(a, b)))
+    for n in (1, 2, 4):
+        obs[f"cumulant{n}"] = _obs(lambda: float(getattr(m.cumulant, f"cumulant{n}")(1.0)))
+    obs["process_drift"] = _obs(lambda: float(m.process_drift()))
+    obs["omega"] = _obs(lambda: float(m.omega))
+    obs["drift"] = _obs(lambda: float(m.drift()))
+    obs["logcf(1,0.7)"] = _obs(lambda: complex(m.log_characteristic_function(1.0, 0.7)))
+    obs["mean(1)"] = _obs(lambda: float(m.mean(1.0)))
+    spot = obs["market:spot"][1] if obs["market:spot"][0] == "value" else 100.0
+    obs["cos:call(atm)"] = _obs(lambda: float(np.squeeze(COSPricer(m).price(product=make_product("call", spot, OBS_T)))))
+    obs["cos:put(0.9)"] = _obs(lambda: float(np.squeeze(COSPricer(m).price(product=make_product("put", 0.9 * spot, OBS_T)))))
+    return obs
+
+
+# parameter values that differ from every start set in EVERY entry (second objects, "reinit" route)
+DONOR = {
+    "hem": {"sigma": 0.11, "p": 0.45, "eta1": 33.0, "eta2": 17.0, "intensity": 1.7},
+    "merton": {"sigma": 0.13, "sigma_j": 0.07, "mu_j": 0.05, "intensity": 1.3},
+    "cgmy": {"c": 0.37, "g": 9.0, "m": 11.0, "y": 0.8},
+    "vg": {"sigma": 0.17, "nu": 0.33, "theta": -0.07},
+    "bs": {"sigma": 0.23},
+}
+ROUTES = ("ctor", "creator", "reinit", "deepcopy", "pickle", "calibrated")
+
+
+def make_exp_model_via(route, fam, values, r, d, spot):
+    """(model, values): an exponential model holding `values`, reached by one of the public construction routes.
+      ctor        Parameters(**values) handed to the model constructor (the reference route)
+      creator     utils.create_exponential_of_levy_model(type)(spot=, r=, d=, **values)
+      reinit      a Parameters object built with other values (DONOR), every attribute re-assigned, initialisation(), then the
+                  model constructor: what calibrate_model_parameter / run_default_calibration do
+      deepcopy    copy.deepcopy of a ctor model;   pickle   pickle round trip of a ctor model (what a worker pool receives)
+      calibrated  the model RETURNED by run_default_calibration(ctor model, maturity 0.5, volatility 0.25): calibrating again
+                  from a calibrated model; `values` are then read from the returned model (its public parameter values)"""
+    import copy
+    import pickle
+
+    from rpylib.model import utils as U
+
+    if route == "ctor":
+        return make_exp_model(fam, values, r, d, spot), dict(values)
+    if route == "creator":
+        return U.create_exponential_of_levy_model(_mt(fam))(spot=spot, r=r, d=d, **values), dict(values)
+    if route == "reinit":
+        p = make_parameters(fam, DONOR[fam])
+        for k in ATTRS[fam]:
+            setattr(p, k, values[k])
+        p.initialisation()
+        return _classes(fam).exponential_of_levy_model(spot=spot, r=r, d=d, parameters=p), dict(values)
+    if route == "deepcopy":
+        return copy.deepcopy(make_exp_model(fam, values, r, d, spot)), dict(values)
+    if route == "pickle":
+        return pickle.loads(pickle.dumps(make_exp_model(fam, values, r, d, spot))), dict(values)
+    if route == "calibrated":
+        cm = U.run_default_calibration(model=make_exp_model(fam, values, r, d, spot), maturity=0.5, bs_sigma=0.25)
+        return cm, param_values(fam, cm.levy_model.parameters)
+    raise ValueError(route)
 
 
 def _obs_name_class(name):
@@ -422,18 +657,68 @@ CONSTRAINT_FACTORIES = {
 }
 
 
+NAN, INF = math.nan, math.inf
+
+
 def _constraint_values(args, kind):
+    """Values around the bound(s) (the bound, its two neighbours in float), ordinary values, the signed zeros, Python ints,
+    numpy scalars and the non-finite values."""
     pts = {0.0, -1.0, 1.0, 3.0, -3.0}
     for b in args + (0.0,):
         pts |= {b, float(np.nextafter(b, math.inf)), float(np.nextafter(b, -math.inf))}
     pts = sorted(pts)
     if kind == "scalar":
-        return pts
+        extra = [-0.0, 0, 1, -1, 2, 3, np.float64(args[0] if args else 0.0), np.float64(0.25), np.float64(-0.25), NAN, INF, -INF]
+        return pts + extra
     base = [-1.0, 0.0, 1.0]
-    return [[a] for a in base] + [[a, b] for a in base for b in base] + [[]]
+    seqs = [[a] for a in base] + [[a, b] for a in base for b in base] + [[]]
+    seqs += [(1.0, -1.0), (1.0, 2.0), (-1.0, -2.0), np.array([1.0, 0.0]), np.array([-1.0, -2.0]), np.array([2.0, -1.0]),
+             [NAN], [1.0, NAN], [-1.0, NAN], [INF], [-INF], [-0.0], [0, 1], [-1, 0]]
+    return seqs
+
+
+def _where(val, args, kind):
+    if kind != "scalar":
+        return "off-the-bound"
+    if isinstance(val, float) and not math.isfinite(val):
+        return "non-finite"
+    return "on-the-bound" if val in args + ((0.0,) if not args else ()) else "off-the-bound"
+
+
+def _same(a, b):
+    if a is b:
+        return True
+    try:
+        return bool(np.all(np.asarray(a == b)))
+    except Exception:
+        return False
+
+
+def _snap_vars(o):
+    try:
+        return snap(dict(vars(o), **_settable_properties(o)))
+    except Exception:
+        return repr(vars(o))
+
+
+CONSTRAINT_ROUTES = ("first-assignment", "after-a-legal-assignment", "constructor", "on-a-deep-copy", "on-a-subclass-instance",
+                     "with-a-second-instance", "with-a-second-constrained-attribute")
+
+
+def _second_factory(P, name, args):
+    """The same factory once more, with shifted bounds where it has any: a class with two constrained attributes."""
+    fac = getattr(P, name)
+    if args:
+        fac = fac(*[a + 10.0 for a in args])
+    return fac, (lambda v: v + 10.0)
 
 
 def _sub_constraints(sh, case):
+    """Every factory x value x assignment route: accepted iff the documented relation holds, a rejected value raises
+    ValueError and changes nothing - neither on the object assigned to nor on another instance / another constrained
+    attribute / the original of a deep copy."""
+    import copy
+
     from rpylib.tools import parameter as P
 
     name = case["factory"]
@@ -442,52 +727,138 @@ def _sub_constraints(sh, case):
     if args:
         fac = fac(*args)
     cls = type("Scratch", (), {"v": fac("v")})
+
+    def ctor_init(self, v):
+        self.v = v
+
+    cls_ctor = type("ScratchCtor", (), {"v": fac("v"), "__init__": ctor_init})
+    cls_sub = type("ScratchSub", (cls,), {})
+    fac2, shift = _second_factory(P, name, args)
+    cls_two = type("ScratchTwo", (), {"v": fac("v"), "w": fac2("w")})
     values = _constraint_values(args, kind)
+    legal_values = [v for v in values if rel(v)]
+    legal0 = legal_values[0]
+    # a legal value of the second attribute (bounds shifted by 10 for the parametrised factories)
+    if kind == "scalar":
+        # (only values whose shift is exact: the float neighbours of a bound lose their ulp when 10 is added)
+        w_legal = [shift(v) if args else v for v in legal_values
+                   if isinstance(v, float) and math.isfinite(v) and (not args or shift(v) - 10.0 == v and v in (-3.0, -1.0, 0.0, 1.0, 3.0) + args)][:2]
+    else:
+        w_legal = legal_values[:2]
     outcomes = []
-    for first in [None] + [v for v in values if rel(v)]:
+
+    def judge(route, o, val, exc, before, first=None, bystanders=()):
+        sh.count("evaluations")
+        legal = bool(rel(val))
+        where = _where(val, args, kind)
+        suffix = "" if route in CONSTRAINT_ROUTES[:2] else ":" + route
+        detail = {"value": repr(val), "previous": repr(first), "route": route}
+        if legal:
+            if exc is not None:
+                sh.violation(f"C20:constraints:{name}:legal-value-rejected:{where}{suffix}",
+                             f"{name}{args}: {val!r} satisfies the documented relation but assigning it raised {exc!r} ({route})",
+                             detail)
+            elif o is not None and not (_same(vars(o).get("v", o.v), val) and _same(o.v, val)):
+                sh.violation(f"C20:constraints:{name}:assignment-not-stored{suffix}",
+                             f"{name}{args}: assigned {val!r}, reads {o.v!r} ({route})", detail)
+        else:
+            if exc is None:
+                sh.violation(f"C20:constraints:{name}:illegal-value-accepted:{where}{suffix}",
+                             f"{name}{args}: {val!r} violates the documented relation but was stored ({route})", detail)
+            else:
+                if not isinstance(exc, ValueError):
+                    sh.violation(f"C20:constraints:{name}:illegal-value-wrong-exception:{type(exc).__name__}{suffix}",
+                                 f"{name}{args}: assigning {val!r} raised {exc!r} instead of ValueError ({route})", detail)
+                if o is not None and _snap_vars(o) != before:
+                    sh.violation(f"C20:constraints:{name}:illegal-assignment-changed-state{suffix}",
+                                 f"{name}{args}: rejected value {val!r} changed the instance from {before} to {_snap_vars(o)} "
+                                 f"({route})", detail)
+        for label, other, snap_before in bystanders:
+            sh.count("evaluations")
+            if _snap_vars(other) != snap_before:
+                sh.violation(f"C20:constraints:{name}:assignment-changed-another-object:{label}",
+                             f"{name}{args}: assigning {val!r} ({'accepted' if exc is None else 'rejected'}, {route}) changed "
+                             f"{label} from {snap_before} to {_snap_vars(other)}", detail)
+        outcomes.append((route, repr(val), exc is None))
+
+    def assign(o, attr, val):
+        try:
+            setattr(o, attr, val)
+        except Exception as e:
+            return e
+        return None
+
+    # routes 1, 2: plain setattr on a new instance, first assignment / after every legal value
+    for first in [None] + legal_values:
         for val in values:
             o = cls()
             if first is not None:
-                try:
-                    o.v = first
-                except Exception as e:
+                e = assign(o, "v", first)
+                if e is not None:
                     sh.violation(f"C20:constraints:{name}:legal-value-rejected", f"{name}{args}: assigning {first!r} raised {e!r}",
-                                 {"value": first})
+                                 {"value": repr(first)})
                     continue
-            before = dict(vars(o))
-            exc = None
-            try:
-                o.v = val
-            except Exception as e:
-                exc = e
+            before = _snap_vars(o)
+            exc = assign(o, "v", val)
+            judge(CONSTRAINT_ROUTES[0] if first is None else CONSTRAINT_ROUTES[1], o, val, exc, before, first)
+    for val in values:
+        # constructor: the assignment is made by __init__
+        o, exc = None, None
+        try:
+            o = cls_ctor(val)
+        except Exception as e:
+            exc = e
+        judge("constructor", o, val, exc, None)
+        # deep copy of an instance holding a legal value: the copy enforces the constraint, the original is not touched
+        orig = cls()
+        if assign(orig, "v", legal0) is None:
+            o = copy.deepcopy(orig)
+            s_orig = _snap_vars(orig)
+            before = _snap_vars(o)
+            if before != s_orig:
+                sh.violation(f"C20:constraints:{name}:deep-copy-differs", f"{name}{args}: deep copy {before}, original {s_orig}", None)
+            exc = assign(o, "v", val)
+            judge("on-a-deep-copy", o, val, exc, before, legal0, [("the-original-of-the-deep-copy", orig, s_orig)])
+        # instance of a subclass
+        o = cls_sub()
+        before = _snap_vars(o)
+        exc = assign(o, "v", val)
+        judge("on-a-subclass-instance", o, val, exc, before)
+        # a second instance of the same class holds a legal value
+        o1 = cls()
+        if assign(o1, "v", legal0) is None:
+            s1 = _snap_vars(o1)
+            o = cls()
+            before = _snap_vars(o)
+            exc = assign(o, "v", val)
+            judge("with-a-second-instance", o, val, exc, before, None, [("another-instance", o1, s1)])
+        # a second constrained attribute on the same object, assigned before and after
+        for wv in w_legal:
+            o = cls_two()
+            e = assign(o, "w", wv)
+            if e is not None:
+                sh.violation(f"C20:constraints:{name}:legal-value-rejected:second-attribute",
+                             f"{name}: second attribute (bounds shifted by 10) rejected {wv!r}: {e!r}", None)
+                continue
+            before = _snap_vars(o)
+            exc = assign(o, "v", val)
+            judge("with-a-second-constrained-attribute", o, val, exc, before, None)
             sh.count("evaluations")
-            legal = bool(rel(val))
-            where = "on-the-bound" if (kind == "scalar" and val in args + ((0.0,) if not args else ())) else "off-the-bound"
-            hist = "first-assignment" if first is None else "after-a-legal-assignment"
-            if legal:
-                if exc is not None:
-                    sh.violation(f"C20:constraints:{name}:legal-value-rejected:{where}",
-                                 f"{name}{args}: {val!r} satisfies the documented relation but assigning it raised {exc!r}",
-                                 {"value": val, "previous": first})
-                elif vars(o).get("v") != val or o.v != val:
-                    sh.violation(f"C20:constraints:{name}:assignment-not-stored", f"{name}{args}: assigned {val!r}, reads {o.v!r}",
-                                 {"value": val, "previous": first})
-            else:
-                if exc is None:
-                    sh.violation(f"C20:constraints:{name}:illegal-value-accepted:{where}",
-                                 f"{name}{args}: {val!r} violates the documented relation but was stored ({hist})",
-                                 {"value": val, "previous": first})
-                else:
-                    if not isinstance(exc, ValueError):
-                        sh.violation(f"C20:constraints:{name}:illegal-value-wrong-exception:{type(exc).__name__}",
-                                     f"{name}{args}: assigning {val!r} raised {exc!r} instead of ValueError", {"value": val})
-                    if dict(vars(o)) != before:
-                        sh.violation(f"C20:constraints:{name}:illegal-assignment-changed-state",
-                                     f"{name}{args}: rejected value {val!r} changed the instance from {before} to {vars(o)}",
-                                     {"value": val, "previous": first})
-            outcomes.append((repr(val), exc is None))
+            if not _same(o.w, wv):
+                sh.violation(f"C20:constraints:{name}:assignment-changed-another-attribute",
+                             f"{name}{args}: assigning v = {val!r} changed w from {wv!r} to {o.w!r}", None)
+            if exc is None:
+                v_now = o.v
+                e = assign(o, "w", w_legal[0])
+                sh.count("evaluations")
+                if e is not None or not _same(o.v, v_now) or not _same(o.w, w_legal[0]):
+                    sh.violation(f"C20:constraints:{name}:assignment-changed-another-attribute",
+                                 f"{name}{args}: after v = {val!r}, w = {w_legal[0]!r}: raised {e!r}, v reads {o.v!r}, w reads {o.w!r}",
+                                 None)
     sh.outcome((name, tuple(outcomes)))
     sh.cls("constraint:" + name)
+    for route in CONSTRAINT_ROUTES:
+        sh.cls("constraint-route:" + route)
     sh.nontriv()
 
 
@@ -511,13 +882,18 @@ LEGAL = {
     None: lambda x: True,
 }
 MENU = {
-    "hem": {"sigma": [0.0, 0.2, -0.01], "p": [0.3, 0.0], "eta1": [10.0, 0.0], "eta2": [40.0, -5.0],
+    "hem": {"sigma": [0.0, 0.2, -0.01, "nan"], "p": [0.3, 0.0], "eta1": [10.0, 0.0], "eta2": [40.0, -5.0],
             "intensity": [0.0, 5.0, -1.0]},
-    "merton": {"sigma": [0.0, 0.2, -0.01], "mu_j": [0.0, 0.1, -0.02], "sigma_j": [0.1, 0.0], "intensity": [0.0, 5.0, -1.0]},
-    "vg": {"sigma": [0.2, 0.0, -0.1], "nu": [0.2, 0.5], "theta": [-0.15, 0.0]},
-    "cgmy": {"c": [0.5, 0.0], "g": [5.0, 0.0, -1.0], "m": [7.0, 0.0, -1.0], "y": [1.2, -0.5, 2.0]},
-    "bs": {"sigma": [0.0, 0.3, -0.1]},
+    "merton": {"sigma": [0.0, 0.2, -0.01], "mu_j": [0.0, 0.1, -0.02], "sigma_j": [0.1, 0.0, "nan"], "intensity": [0.0, 5.0, -1.0]},
+    "vg": {"sigma": [0.2, 0.0, -0.1, "nan"], "nu": [0.2, 0.5], "theta": [-0.15, 0.0]},
+    "cgmy": {"c": [0.5, 0.0], "g": [5.0, 0.0, -1.0], "m": [7.0, 0.0, -1.0], "y": [1.2, -0.5, 2.0, "nan"]},
+    "bs": {"sigma": [0.0, 0.3, -0.1, "nan"]},
 }
+
+
+def _val(v):
+    """Menu values are JSON-able; the non-finite one is written as a string."""
+    return float(v) if isinstance(v, str) else v
 
 
 def _events(fam):
@@ -526,36 +902,87 @@ def _events(fam):
         for v in MENU[fam][a]:
             ev.append(["set", a, v])
     ev.append(["init"])
+    # operations that must not change what the object is: using it (and a second object of its class) in between,
+    # continuing on a deep copy / on a pickle round trip of it
+    ev.append(["interlude"])
+    ev.append(["copy"])
+    ev.append(["pickle"])
     return ev
 
 
 class _PState:
-    __slots__ = ("obj", "flag", "last")
+    __slots__ = ("obj", "flag", "used", "copied", "last", "retired")
 
     def __init__(self, obj):
         self.obj = obj
         self.flag = True  # the constructor has just computed the derived entries
+        self.used = False  # models have been built from the object and evaluated (interlude)
+        self.copied = False  # the object is a deep copy / pickle round trip of the one the history started on
         self.last = None  # record of the last event
+        self.retired = []  # (object left behind by copy / pickle, its snapshot at that time)
 
 
-def _apply(st, ev):
+def _public(fam, o):
+    out = {}
+    for k in ATTRS[fam]:
+        try:
+            out[k] = getattr(o, k)
+        except Exception as e:
+            out[k] = "<raises " + type(e).__name__ + ">"
+    return out
+
+
+def _apply(st, ev, fam):
+    import copy
+    import pickle
+
     o = st.obj
     before = dict(vars(o))
+    public_before = _public(fam, o)
     exc = None
+    extra = {}
     if ev[0] == "init":
         try:
             o.initialisation()
         except Exception as e:
             exc = e
         st.flag = exc is None
-    else:
+    elif ev[0] == "set":
         try:
-            setattr(o, ev[1], ev[2])
+            setattr(o, ev[1], _val(ev[2]))
         except Exception as e:
             exc = e
         if exc is None:
             st.flag = False
-    st.last = {"ev": ev, "exc": exc, "before": before, "after": dict(vars(o))}
+    elif ev[0] == "interlude":
+        # use the object: build the Levy model and the exponential model from it and evaluate everything ...
+        try:
+            observe_models(fam, o)
+        except Exception as e:
+            exc = e
+        extra["state_after_use"] = (_snap_vars(o), _public(fam, o))
+        # ... then build, re-assign, re-initialise and use a SECOND object of the same class
+        try:
+            p2 = make_parameters(fam, DONOR[fam])
+            twin = STARTS[fam][-1]
+            for k in ATTRS[fam]:
+                setattr(p2, k, twin[k])
+            p2.initialisation()
+            observe_models(fam, p2)
+        except Exception as e:
+            extra["second_object_raised"] = repr(e)
+        st.used = True
+    elif ev[0] in ("copy", "pickle"):
+        try:
+            new = copy.deepcopy(o) if ev[0] == "copy" else pickle.loads(pickle.dumps(o))
+        except Exception as e:
+            exc = e
+        else:
+            st.retired.append((o, _snap_vars(o)))
+            st.obj = new
+            st.copied = True
+    st.last = {"ev": ev, "exc": exc, "before": before, "after": dict(vars(o)), "public_before": public_before,
+               "public_after": _public(fam, o), "extra": extra}
 
 
 def _sub_assign(sh, case):
@@ -579,31 +1006,75 @@ def _sub_assign(sh, case):
     def build(hist):
         st = _PState(make_parameters(fam, base))
         for ev in prefix + hist:
-            _apply(st, ev)
+            _apply(st, ev, fam)
         return st
 
     def menu(st, hist):
         return events
 
     def canon(st, hist):
-        return (snap(vars(st.obj)), st.flag)
+        return (snap(vars(st.obj)), snap(_public(fam, st.obj)), st.flag, st.used, st.copied)
 
     def report(key, what, hist, detail=None):
         sh.violation(key, what, {"history": prefix + hist, "detail": detail})
+
+    def constructor_route():
+        """Every menu value handed to the public constructor (the other attributes at their start values): the constraint
+        is enforced on the assignments the constructor makes."""
+        for attr in ATTRS[fam]:
+            for v in MENU[fam][attr]:
+                val = _val(v)
+                legal = LEGAL[DECLARED[fam][attr]](val)
+                exc = None
+                try:
+                    p = make_parameters(fam, dict(base, **{attr: val}))
+                except Exception as e:
+                    exc = e
+                sh.count("evaluations")
+                bound = "on-the-bound" if val in (0.0, 2.0) and DECLARED[fam][attr] else "off-the-bound"
+                sh.cls(f"assign:{fam}:constructor:{'legal' if legal else 'illegal'}:{attr}")
+                if not legal:
+                    if exc is None:
+                        report(f"C20:assign:{fam}:illegal-value-accepted:{attr}:{bound}:constructor",
+                               f"{fam}Parameters({attr}={val!r}) violates the declared constraint ({DECLARED[fam][attr]}) but the "
+                               f"constructor stored it", [], {"stored": repr(_public(fam, p).get(attr))})
+                    elif not isinstance(exc, ValueError):
+                        report(f"C20:assign:{fam}:illegal-value-wrong-exception:{attr}:{type(exc).__name__}:constructor",
+                               f"{fam}Parameters({attr}={val!r}) raised {exc!r} instead of ValueError", [])
+                elif exc is None:
+                    if not _same(getattr(p, attr), val):
+                        report(f"C20:assign:{fam}:assignment-not-stored:{attr}:constructor",
+                               f"{fam}Parameters({attr}={val!r}) reads back {getattr(p, attr)!r}", [])
+                elif isinstance(exc, ValueError) and "expected" in str(exc):
+                    # the derived entries may legitimately fail for a legal value (division by zero ...): only a rejection
+                    # by the constraint itself is judged
+                    report(f"C20:assign:{fam}:legal-value-rejected:{attr}:{bound}:constructor",
+                           f"{fam}Parameters({attr}={val!r}) is admissible ({DECLARED[fam][attr]}) but raised {exc!r}", [])
 
     def invariant(st, hist, ev):
         if ev is None:
             if prefix:
                 return None
+            constructor_route()
             rec = None
         else:
             rec = st.last
         o = st.obj
+        # objects left behind by copy / pickle are never touched again
+        for n, (old, snap_then) in enumerate(st.retired):
+            if rec is not None:
+                sh.count("evaluations")
+                if _snap_vars(old) != snap_then:
+                    report(f"C20:assign:{fam}:operation-on-a-copy-changed-the-original:{rec['ev'][0]}",
+                           f"{fam}: after {rec['ev']} on a copy, the object the copy was taken from changed: "
+                           f"{snap_diff(snap_then, _snap_vars(old))}", hist)
         if rec is not None and ev[0] == "set":
-            attr, val = ev[1], ev[2]
+            attr, val = ev[1], _val(ev[2])
             legal = LEGAL[DECLARED[fam][attr]](val)
             sh.count("evaluations")
             bound = "on-the-bound" if val in (0.0, 2.0) and DECLARED[fam][attr] else "off-the-bound"
+            if isinstance(val, float) and not math.isfinite(val):
+                bound = "non-finite"
             if legal:
                 sh.cls(f"assign:{fam}:legal:{attr}:{bound}")
                 if rec["exc"] is not None:
@@ -617,6 +1088,11 @@ def _sub_assign(sh, case):
                     others_a = {k: v for k, v in rec["after"].items() if k != attr}
                     if snap(others_b) != snap(others_a):
                         sh.note(f"{fam}: assignment to {attr} also changes other entries of the object (observation)")
+                    pb = {k: v for k, v in rec["public_before"].items() if k != attr}
+                    pa = {k: v for k, v in rec["public_after"].items() if k != attr}
+                    if snap(pb) != snap(pa):
+                        report(f"C20:assign:{fam}:assignment-changed-another-parameter:{attr}",
+                               f"{fam}.{attr} = {val!r} changed the other parameters from {pb} to {pa}", hist)
             else:
                 sh.cls(f"assign:{fam}:illegal:{attr}:{bound}")
                 if rec["exc"] is None:
@@ -626,10 +1102,37 @@ def _sub_assign(sh, case):
                     if not isinstance(rec["exc"], ValueError):
                         report(f"C20:assign:{fam}:illegal-value-wrong-exception:{attr}:{type(rec['exc']).__name__}",
                                f"{fam}.{attr} = {val!r} raised {rec['exc']!r} instead of ValueError", hist)
-                    if snap(rec["before"]) != snap(rec["after"]):
+                    if snap(rec["before"]) != snap(rec["after"]) or snap(rec["public_before"]) != snap(rec["public_after"]):
                         report(f"C20:assign:{fam}:illegal-assignment-changed-state:{attr}",
-                               f"rejected {fam}.{attr} = {val!r} changed the object: {snap_diff(snap(rec['before']), snap(rec['after']))}",
-                               hist)
+                               f"rejected {fam}.{attr} = {val!r} changed the object: "
+                               f"{snap_diff(snap(rec['before']), snap(rec['after']))} "
+                               f"{snap_diff(snap(rec['public_before']), snap(rec['public_after']))}", hist)
+        if rec is not None and ev[0] == "interlude":
+            sh.count("evaluations", 2)
+            sh.cls(f"assign:{fam}:interlude")
+            if rec["exc"] is not None:
+                report(f"C20:assign:{fam}:using-the-object-raised:{type(rec['exc']).__name__}",
+                       f"{fam}: building and evaluating models from the object raised {rec['exc']!r}", hist)
+            if snap(rec["public_before"]) != snap(rec["public_after"]):
+                report(f"C20:assign:{fam}:parameter-values-changed-without-assignment:interlude",
+                       f"{fam}: after using the object and assigning to a SECOND object of the class its parameter values went "
+                       f"from {rec['public_before']} to {rec['public_after']}", hist)
+            after_use = rec["extra"].get("state_after_use")
+            if after_use is not None and after_use != (_snap_vars(o), _public(fam, o)) and after_use[1] == rec["public_before"]:
+                report(f"C20:assign:{fam}:second-object-of-the-class-changed-this-one",
+                       f"{fam}: building / assigning / initialising another {fam} parameters object changed this one: "
+                       f"{snap_diff(after_use[0], _snap_vars(o))}", hist)
+            if "second_object_raised" in rec["extra"]:
+                sh.note(f"{fam}: the second object of the interlude raised {rec['extra']['second_object_raised']}")
+        if rec is not None and ev[0] in ("copy", "pickle"):
+            sh.count("evaluations")
+            sh.cls(f"assign:{fam}:{ev[0]}")
+            if rec["exc"] is not None:
+                report(f"C20:assign:{fam}:{ev[0]}-raised:{type(rec['exc']).__name__}",
+                       f"{fam}: {ev[0]} of the parameters object raised {rec['exc']!r}", hist)
+            elif snap(_public(fam, o)) != snap(rec["public_before"]):
+                report(f"C20:assign:{fam}:{ev[0]}-has-other-parameter-values",
+                       f"{fam}: {ev[0]} holds {_public(fam, o)}, the original {rec['public_before']}", hist)
         values = param_values(fam, o)
         vkey = tuple(sorted(values.items()))
         if rec is not None and ev[0] == "init":
@@ -652,18 +1155,27 @@ def _sub_assign(sh, case):
             sh.count("evaluations", len(ref))
             sh.count("model_comparisons")
             sh.nontriv((fam, vkey, tuple(map(repr, prefix + hist))))
+            if st.used:
+                sh.cls(f"assign:{fam}:compared-after-use")
+            if st.copied:
+                sh.cls(f"assign:{fam}:compared-on-a-copy")
             bad_fields, bad_obs = [], []
             for name in sorted(set(ref) | set(mine)):
                 a, b = mine.get(name, ("missing",)), ref.get(name, ("missing",))
+                if name.startswith("field:") and (a[0] == "missing" or b[0] == "missing"):
+                    # a private entry that exists on one side only is not a stale value: the behaviour decides
+                    sh.note(f"{fam}: private entry {name[6:]} exists only on the "
+                            f"{'freshly constructed' if a[0] == 'missing' else 'updated'} object (not judged)")
+                    continue
                 if a[0] == "missing" or b[0] == "missing" or not _obs_equal(a, b):
                     (bad_fields if name.startswith("field:") else bad_obs).append((name, a, b))
             for name, a, b in bad_fields:
                 report(f"C20:assign:{fam}:derived-field-stale-after-initialisation:{name[6:]}",
-                       f"{fam}{values} after initialisation(): {name[6:]} = {a[1]!r} on the updated object, {b[1]!r} on a "
+                       f"{fam}{values} after initialisation(): {name[6:]} = {a[-1]!r} on the updated object, {b[-1]!r} on a "
                        f"freshly constructed one", hist, {"updated": a, "fresh": b})
             for name, a, b in bad_obs:
                 report(f"C20:assign:{fam}:model-from-updated-parameters-differs:{_obs_name_class(name)}",
-                       f"{fam}{values} after initialisation(): {name} = {a[1]!r} from the updated object, {b[1]!r} from a "
+                       f"{fam}{values} after initialisation(): {name} = {a[-1]!r} from the updated object, {b[-1]!r} from a "
                        f"freshly constructed one", hist, {"updated": a, "fresh": b, "stale_fields": [f[0] for f in bad_fields]})
             if len(hist) + len(prefix) <= 2 and ev is not None and ev[0] == "init":
                 sh.sample({"sub": "assign", "class": fam, "history": prefix + hist, "values": values,
@@ -672,6 +1184,23 @@ def _sub_assign(sh, case):
         return None
 
     s, t, dmax = core.bfs(sh, build, menu, canon, invariant, case["depth"])
+    # a freshly constructed object gives the same observations whenever it is constructed: the reference of every value
+    # combination met is computed once more at the end (after all the histories above have run in this process)
+    for vkey, first in sorted(fresh_cache.items(), key=lambda kv: repr(kv[0])):
+        if first[0] != "ok":
+            continue
+        sh.count("evaluations")
+        try:
+            again = observe_models(fam, make_parameters(fam, dict(vkey)))
+        except Exception as e:
+            again = {"construct": ("raises", type(e).__name__)}
+        bad = [n for n in sorted(set(first[1]) | set(again))
+               if n not in again or n not in first[1] or not _obs_equal(first[1][n], again[n])]
+        if bad:
+            sh.violation(f"C20:assign:{fam}:fresh-object-depends-on-what-ran-before:{_obs_name_class(bad[0])}",
+                         f"{fam}{dict(vkey)}: an object constructed at the end of the search differs from one constructed "
+                         f"earlier with the same values in {bad[:6]}: {first[1].get(bad[0])} then, {again.get(bad[0])} now",
+                         {"history": prefix, "detail": {"observations": bad}})
     sh.count("bfs_states", s)
     sh.count("bfs_transitions", t)
     sh.outcome((fam, tuple(case["prefix"]), s, t, len(fresh_cache)))
@@ -706,6 +1235,15 @@ def make_product(kind, strike, T):
     return Product(payoff_underlying=Spot(), payoff=payoff, maturity=T)
 
 
+def make_unsupported_product(strike, T):
+    """A library product whose payoff COSPricer.price does not handle (neither Forward nor Vanilla call / put)."""
+    from rpylib.product.payoff import Digital, PayoffType
+    from rpylib.product.product import Product
+    from rpylib.product.underlying import Spot
+
+    return Product(payoff_underlying=Spot(), payoff=Digital(strike=strike, payoff_type=PayoffType.CALL), maturity=T)
+
+
 def fresh_price(fam, values, r, d, spot, product):
     from rpylib.numerical.cosmethod import COSPricer
 
@@ -734,29 +1272,38 @@ class _Seam:
         return False
 
 
-def _call_with_seam_fallback(sh, fn_name, call):
+def _call_with_seam_fallback(sh, fn_name, call, watched=()):
     """Run call(); on TypeError (array-valued objective refused by brentq) report through the caller and run again with the
-    scalar seam. Returns list of attempts [(label, result|None, exception|None)]."""
+    scalar seam. Returns list of attempts [(label, result|None, exception|None, snapshots)], `snapshots` being the deep
+    snapshots of the `watched` objects taken immediately after the call (before the oracle constructs anything)."""
     attempts = []
     try:
-        attempts.append(("as-is", call(), None))
+        res = call()
+        attempts.append(("as-is", res, None, [snap(w) for w in watched]))
     except Exception as e:
-        attempts.append(("as-is", None, e))
+        attempts.append(("as-is", None, e, [snap(w) for w in watched]))
         if isinstance(e, TypeError):
             sh.count("seam_reruns")
             sh.note("brentq refused the library's array-valued objective (TypeError); case re-run with the scalar seam")
             with _Seam():
                 try:
-                    attempts.append(("scalar-seam", call(), None))
+                    res = call()
+                    attempts.append(("scalar-seam", res, None, [snap(w) for w in watched]))
                 except Exception as e2:
-                    attempts.append(("scalar-seam", None, e2))
+                    attempts.append(("scalar-seam", None, e2, [snap(w) for w in watched]))
     return attempts
 
 
-def _judge_parameter(sh, fn_name, case, fam, values, pname, interval, product, market, x, exc, label):
-    """Oracle for one calibration outcome: returned value x, or exception exc."""
+def _judge_parameter(sh, fn_name, case, fam, values, pname, interval, product, market, x, exc, label, raise_ok=False):
+    """Oracle for one calibration outcome: returned value x, or exception exc.  `raise_ok`: a raise is what the statement
+    allows whatever the bracket (interval given in decreasing order: the statement does not say it must be accepted)."""
     r, d, spot = case["r"], case["d"], case["spot"]
     lo, hi = min(interval), max(interval)
+    if exc is not None and raise_ok:
+        sh.count("evaluations")
+        sh.cls(f"calib:{fn_name}:raises-not-judged")
+        sh.outcome((fn_name, fam, pname, "raises-not-judged", type(exc).__name__))
+        return None
 
     def f(v):
         return fresh_price(fam, dict(values, **{pname: v}), r, d, spot, product) - market
@@ -831,41 +1378,105 @@ def _judge_parameter(sh, fn_name, case, fam, values, pname, interval, product, m
     return xv
 
 
-def _check_untouched(sh, fn_name, fam, before, model, label):
-    after = snap(model)
+def _check_untouched(sh, fn_name, fam, before, after, label, role="input-model-modified"):
     sh.count("evaluations")
     if after != before:
         diffs = snap_diff(before, after)
-        sh.violation(f"C20:calib:{fn_name}:input-model-modified:{fam}",
-                     f"{fn_name} changed its input {fam} model [{label}]: {diffs}", {"differences": diffs})
+        sh.violation(f"C20:calib:{fn_name}:{role}:{fam}",
+                     f"{fn_name} changed {'its input' if role == 'input-model-modified' else 'another'} {fam} model [{label}]: "
+                     f"{diffs}", {"differences": diffs})
+
+
+def _twin_obs(fam, values, r, d, spot):
+    """Observations of a model constructed directly with `values`."""
+    return observe_exp_model(fam, make_exp_model(fam, values, r, d, spot))
+
+
+def _check_behaviour(sh, fn_name, fam, model, values, r, d, spot, label, role="input-model"):
+    """The model still behaves like a model constructed directly with the values it was built from: observations made on
+    the object itself and on models rebuilt from its parameters object."""
+    mine = observe_exp_model(fam, model)
+    ref = _twin_obs(fam, values, r, d, spot)
+    try:
+        rebuilt = observe_models(fam, model.levy_model.parameters, r, d, spot)
+    except Exception as e:
+        rebuilt = {"construct": ("raises", type(e).__name__)}
+    rebuilt_ref = observe_models(fam, make_parameters(fam, values), r, d, spot)
+    for k, v in rebuilt.items():
+        mine["rebuilt:" + k] = v
+    for k, v in rebuilt_ref.items():
+        ref["rebuilt:" + k] = v
+    sh.count("evaluations", len(ref))
+    sh.count("behaviour_comparisons")
+    bad = [n for n in sorted(ref) if (n not in mine and not n.startswith("rebuilt:field:"))
+           or (n in mine and not _obs_equal(mine[n], ref[n]))]
+    for n in bad[:4]:
+        comp = _obs_name_class(n).replace("rebuilt:field:", "rebuilt-field-").replace("rebuilt:", "rebuilt-")
+        sh.violation(f"C20:calib:{fn_name}:{role}-behaves-differently-afterwards:{fam}:{comp}",
+                     f"{fn_name} [{label}]: {n} of the {role} is {mine.get(n, ('missing',))[-1]!r} afterwards, "
+                     f"{ref[n][-1]!r} on a {fam} model constructed directly with {values}",
+                     {"observations_differing": bad, "model": mine.get(n), "directly_constructed": ref[n]})
+    return not bad
 
 
 def _setup(case):
     fam = case["family"]
     values = dict(STARTS[fam][case["start"]])
-    model = make_exp_model(fam, values, case["r"], case["d"], case["spot"])
+    model, values = make_exp_model_via(case.get("route", "ctor"), fam, values, case["r"], case["d"], case["spot"])
     return fam, values, model
+
+
+def _vol_kwargs(U, fn, vol):
+    """bs_sigma omitted (vol None): the volatility requested is the default written in the function's signature."""
+    import inspect
+
+    if vol is not None:
+        return {"bs_sigma": vol}, vol
+    return {}, float(inspect.signature(fn).parameters["bs_sigma"].default)
+
+
+def _interval_as(form, interval):
+    if form == "list":
+        return list(interval)
+    if form == "reversed":
+        return (interval[1], interval[0])
+    return tuple(interval)
 
 
 def _sub_calib_atm(sh, case):
     from rpylib.model import utils as U
 
-    fam, values, model = _setup(case)
+    try:
+        fam, values, model = _setup(case)
+    except Exception as e:
+        sh.count("oracle_inconclusive")
+        sh.note(f"route {case.get('route')}: the input model could not be built ({type(e).__name__})")
+        return
     pname, interval = CALIB[fam][case["param"]]
-    T, vol = case["T"], case["vol"]
+    T = case["T"]
+    kw, vol = _vol_kwargs(U, U.calibrate_model_parameter_to_atm_call, case["vol"])
+    form = case.get("interval_form", "tuple")
+    given = _interval_as(form, interval)
     product = make_product("call", case["spot"], T)
     market = bs_call(case["spot"], case["spot"], case["r"], case["d"], vol, T)
     before = snap(model)
     fn = "calibrate_model_parameter_to_atm_call"
-    attempts = _call_with_seam_fallback(
-        sh, fn, lambda: U.calibrate_model_parameter_to_atm_call(model=model, parameter=pname, parameter_interval=interval,
-                                                                maturity=T, bs_sigma=vol))
-    for label, x, exc in attempts:
-        _judge_parameter(sh, fn, case, fam, values, pname, interval, product, market, x, exc, label)
-        _check_untouched(sh, fn, fam, before, model, label)
+    if case.get("form") == "positional":
+        call = lambda: U.calibrate_model_parameter_to_atm_call(model, pname, given, T, *([vol] if kw else []))  # noqa: E731
+    else:
+        call = lambda: U.calibrate_model_parameter_to_atm_call(model=model, parameter=pname, parameter_interval=given,  # noqa: E731
+                                                               maturity=T, **kw)
+    attempts = _call_with_seam_fallback(sh, fn, call, [model])
+    for label, x, exc, after in attempts:
+        _check_untouched(sh, fn, fam, before, after[0], label)
+        _judge_parameter(sh, fn, case, fam, values, pname, given, product, market, x, exc, label, raise_ok=form == "reversed")
+    _check_behaviour(sh, fn, fam, model, values, case["r"], case["d"], case["spot"], attempts[-1][0])
     sh.cls(f"calib:family:{fam}:{pname}")
-    if case["T"] == 1.0 and case["vol"] == 0.2 and case["start"] == 0:
-        label, x, exc = attempts[-1]
+    sh.cls(f"calib:route:{case.get('route', 'ctor')}")
+    sh.cls(f"calib:interval-form:{form}")
+    sh.cls("calib:volatility:" + ("omitted" if case["vol"] is None else "given"))
+    if case["T"] == 1.0 and case["vol"] == 0.2 and case["start"] == 0 and case.get("route", "ctor") == "ctor" and form == "tuple":
+        label, x, exc, _ = attempts[-1]
         sh.sample({"sub": "calib-atm", "family": fam, "parameter": pname, "interval": interval, "T": T, "vol": vol,
                    "market_price": market, "attempt": label, "returned": None if exc else float(x),
                    "raised": type(exc).__name__ if exc else None})
@@ -874,13 +1485,36 @@ def _sub_calib_atm(sh, case):
 def _sub_calib_product(sh, case):
     from rpylib.model import utils as U
 
-    fam, values, model = _setup(case)
+    try:
+        fam, values, model = _setup(case)
+    except Exception as e:
+        sh.count("oracle_inconclusive")
+        sh.note(f"route {case.get('route')}: the input model could not be built ({type(e).__name__})")
+        return
     pname, interval = CALIB[fam][case["param"]]
     T, kind = case["T"], case["kind"]
     spot, r, d = case["spot"], case["r"], case["d"]
     a, b = interval
     xstar = a + case["frac"] * (b - a)
     strike = case["k"] * spot
+    fn = "calibrate_model_parameter"
+    before = snap(model)
+    if kind == "unsupported":
+        # a product the COS method does not price (the docstring of calibrate_model_parameter assumes it can): whatever
+        # happens - the statement allows a raise - the input model is left untouched
+        product = make_unsupported_product(strike, T)
+        attempts = _call_with_seam_fallback(
+            sh, fn, lambda: U.calibrate_model_parameter(model=model, parameter=pname, parameter_interval=interval,
+                                                        product=product, market_price=5.0), [model])
+        for label, x, exc, after in attempts:
+            _check_untouched(sh, fn, fam, before, after[0], label)
+            sh.outcome((fn, fam, "unsupported-product", type(exc).__name__ if exc else "returns"))
+            if exc is None:
+                sh.note("calibrate_model_parameter returned a value for a product the COS pricer does not support (not judged)")
+        _check_behaviour(sh, fn, fam, model, values, r, d, spot, attempts[-1][0])
+        sh.nontriv()
+        sh.cls("calib:product:unsupported")
+        return
     product = make_product("forward" if kind.startswith("forward") else kind, strike, T)
     try:
         market = fresh_price(fam, dict(values, **{pname: xstar}), r, d, spot, product)
@@ -892,24 +1526,21 @@ def _sub_calib_product(sh, case):
     if not math.isfinite(market):
         sh.count("oracle_inconclusive")
         return
-    before = snap(model)
-    fn = "calibrate_model_parameter"
-    attempts = _call_with_seam_fallback(
-        sh, fn, lambda: U.calibrate_model_parameter(model=model, parameter=pname, parameter_interval=interval,
-                                                    product=product, market_price=market))
-    for label, x, exc in attempts:
+    if case.get("form") == "positional":
+        call = lambda: U.calibrate_model_parameter(model, pname, interval, product, market)  # noqa: E731
+    else:
+        call = lambda: U.calibrate_model_parameter(model=model, parameter=pname, parameter_interval=interval,  # noqa: E731
+                                                   product=product, market_price=market)
+    attempts = _call_with_seam_fallback(sh, fn, call, [model])
+    for label, x, exc, after in attempts:
+        _check_untouched(sh, fn, fam, before, after[0], label)
         _judge_parameter(sh, fn, case, fam, values, pname, interval, product, market, x, exc, label)
-        _check_untouched(sh, fn, fam, before, model, label)
+    _check_behaviour(sh, fn, fam, model, values, r, d, spot, attempts[-1][0])
     sh.cls(f"calib:product:{kind}")
+    sh.cls(f"calib:route:{case.get('route', 'ctor')}")
 
 
-def _sub_calib_default(sh, case):
-    from rpylib.model import utils as U
-    from rpylib.numerical.cosmethod import COSPricer
-
-    fam, values, model = _setup(case)
-    T, vol = case["T"], case["vol"]
-    spot, r, d = case["spot"], case["r"], case["d"]
+def _default_entry(sh, U, fam):
     pname, interval = CALIB[fam][0]
     try:
         lib = U.default_calibration[_mt(fam)]
@@ -920,67 +1551,255 @@ def _sub_calib_default(sh, case):
         sh.note(f"utils.default_calibration[{fam}] = ({lib_p}, {lib_i}); the check's table has ({pname}, {interval}); "
                 f"the library's entry is used")
         pname, interval = lib_p, lib_i
+    return pname, interval
+
+
+def _judge_default_result(sh, env, fam, values, model_type, model_market, cm, exc, T, vol, label):
+    """Oracle of run_default_calibration for one outcome (returned model cm, or exception): `values` = public parameter
+    values of the input, `model_type` its class, `model_market` its (spot, r, d).  Returns the calibrated value."""
+    from rpylib.model import utils as U
+    from rpylib.numerical.cosmethod import COSPricer
+
+    fn = "run_default_calibration"
+    spot, r, d = env["spot"], env["r"], env["d"]
+    pname, interval = _default_entry(sh, U, fam)
     product = make_product("call", spot, T)
     market = bs_call(spot, spot, r, d, vol, T)
+    if exc is not None:
+        _judge_parameter(sh, fn, env, fam, values, pname, interval, product, market, None, exc, label)
+        return None
+    sh.count("evaluations")
+    if type(cm) is not model_type:
+        sh.violation(f"C20:calib:{fn}:result-not-of-the-input-type:{fam}",
+                     f"{fn}({model_type.__name__}) returned {type(cm).__name__} [{label}]", None)
+        return None
+    # the returned model itself must reprice the ATM call at the Black-Scholes price
+    try:
+        p_cm = float(np.squeeze(COSPricer(cm).price(product=product)))
+    except Exception as e:
+        sh.violation(f"C20:calib:{fn}:result-cannot-be-priced:{fam}", f"COS price of the returned model raised {e!r} [{label}]", None)
+        return None
+    cvals = param_values(fam, cm.levy_model.parameters)
+    x = cvals[pname]
+    xv = _judge_parameter(sh, fn, env, fam, values, pname, interval, product, market, x, None, label)
+    # tolerance as for the fresh model (same slope): reuse by comparing the two prices
+    p_fresh = fresh_price(fam, cvals, r, d, spot, product)
+    sh.count("evaluations")
+    if not core.close(p_cm, p_fresh, rtol=1e-9, atol=1e-9):
+        sh.violation(f"C20:calib:{fn}:returned-model-price-differs-from-directly-constructed-model:{fam}",
+                     f"{fn}({fam}) [{label}]: ATM call {p_cm!r} under the returned model, {p_fresh!r} under the model "
+                     f"constructed directly from its parameter values {cvals}; Black-Scholes price {market!r}",
+                     {"returned_model_price": p_cm, "fresh_price": p_fresh, "bs": market})
+    # other parameters untouched, spot/r/d carried over
+    for k, v in values.items():
+        if k != pname and cvals[k] != v:
+            sh.violation(f"C20:calib:{fn}:uncalibrated-parameter-changed:{fam}:{k}",
+                         f"{fn}({fam}) changed {k} from {v!r} to {cvals[k]!r} [{label}]", None)
+    if (cm.spot, cm.r, cm.d) != tuple(model_market):
+        sh.violation(f"C20:calib:{fn}:market-data-changed:{fam}",
+                     f"spot/r/d {tuple(model_market)} -> {(cm.spot, cm.r, cm.d)} [{label}]", None)
+    # behaves like the model constructed directly from its values (derived fields in sync)
+    mine = observe_models(fam, cm.levy_model.parameters, r, d, spot)
+    ref = observe_models(fam, make_parameters(fam, cvals), r, d, spot)
+    mine["exp:process_drift(returned)"] = _obs(lambda: float(cm.process_drift()))
+    ref["exp:process_drift(returned)"] = ref["exp:process_drift"]
+    mine["exp:omega(returned)"] = _obs(lambda: float(cm.omega))
+    ref["exp:omega(returned)"] = ref["exp:omega"]
+    sh.count("evaluations", len(ref))
+    for name in sorted(ref):
+        a_, b_ = mine.get(name, ("missing",)), ref[name]
+        if a_[0] == "missing" and name.startswith("field:"):
+            sh.note(f"{fam}: private entry {name[6:]} exists only on the directly constructed object (not judged)")
+            continue
+        if a_[0] == "missing" or not _obs_equal(a_, b_):
+            if name.startswith("field:"):
+                key = f"C20:calib:{fn}:derived-field-stale-in-returned-model:{fam}:{name[6:]}"
+            else:
+                key = f"C20:calib:{fn}:returned-model-differs-from-directly-constructed-model:{fam}:{_obs_name_class(name)}"
+            sh.violation(key, f"{fn}({fam}) [{label}] with {cvals}: {name} = {a_[1] if len(a_) > 1 else None!r} on the "
+                              f"returned model, {b_[1]!r} on the model constructed directly", {"returned": a_, "fresh": b_})
+    # ... observed on the returned object itself as well
+    _check_behaviour(sh, fn, fam, cm, cvals, r, d, spot, label, role="returned-model")
+    return xv, p_cm, market
+
+
+def _sub_calib_default(sh, case):
+    from rpylib.model import utils as U
+
+    try:
+        fam, values, model = _setup(case)
+    except Exception as e:
+        sh.count("oracle_inconclusive")
+        sh.note(f"route {case.get('route')}: the input model could not be built ({type(e).__name__})")
+        return
+    T = case["T"]
+    spot, r, d = case["spot"], case["r"], case["d"]
+    kw, vol = _vol_kwargs(U, U.run_default_calibration, case["vol"])
     before = snap(model)
     fn = "run_default_calibration"
-    attempts = _call_with_seam_fallback(sh, fn, lambda: U.run_default_calibration(model=model, maturity=T, bs_sigma=vol))
-    for label, cm, exc in attempts:
-        _check_untouched(sh, fn, fam, before, model, label)
-        if exc is not None:
-            _judge_parameter(sh, fn, case, fam, values, pname, interval, product, market, None, exc, label)
-            continue
-        sh.count("evaluations")
-        if type(cm) is not type(model):
-            sh.violation(f"C20:calib:{fn}:result-not-of-the-input-type:{fam}",
-                         f"{fn}({type(model).__name__}) returned {type(cm).__name__} [{label}]", None)
-            continue
-        if cm is model or getattr(cm.levy_model, "parameters", None) is model.levy_model.parameters:
+    if case.get("form") == "positional":
+        call = lambda: U.run_default_calibration(model, T, *([vol] if kw else []))  # noqa: E731
+    else:
+        call = lambda: U.run_default_calibration(model=model, maturity=T, **kw)  # noqa: E731
+    attempts = _call_with_seam_fallback(sh, fn, call, [model])
+    for label, cm, exc, after in attempts:
+        _check_untouched(sh, fn, fam, before, after[0], label)
+        if exc is None and (cm is model or getattr(getattr(cm, "levy_model", None), "parameters", None) is model.levy_model.parameters):
             sh.violation(f"C20:calib:{fn}:result-aliases-the-input:{fam}",
                          f"{fn} returned an object sharing the input's {'model' if cm is model else 'parameters'} [{label}]", None)
-        # the returned model itself must reprice the ATM call at the Black-Scholes price
-        try:
-            p_cm = float(np.squeeze(COSPricer(cm).price(product=product)))
-        except Exception as e:
-            sh.violation(f"C20:calib:{fn}:result-cannot-be-priced:{fam}", f"COS price of the returned model raised {e!r} [{label}]", None)
-            continue
-        cvals = param_values(fam, cm.levy_model.parameters)
-        x = cvals[pname]
-        xv = _judge_parameter(sh, fn, case, fam, values, pname, interval, product, market, x, None, label)
-        # tolerance as for the fresh model (same slope): reuse by comparing the two prices
-        p_fresh = fresh_price(fam, cvals, r, d, spot, product)
-        sh.count("evaluations")
-        if not core.close(p_cm, p_fresh, rtol=1e-9, atol=1e-9):
-            sh.violation(f"C20:calib:{fn}:returned-model-price-differs-from-directly-constructed-model:{fam}",
-                         f"{fn}({fam}) [{label}]: ATM call {p_cm!r} under the returned model, {p_fresh!r} under the model "
-                         f"constructed directly from its parameter values {cvals}; Black-Scholes price {market!r}",
-                         {"returned_model_price": p_cm, "fresh_price": p_fresh, "bs": market})
-        # other parameters untouched, spot/r/d carried over
-        for k, v in values.items():
-            if k != pname and cvals[k] != v:
-                sh.violation(f"C20:calib:{fn}:uncalibrated-parameter-changed:{fam}:{k}",
-                             f"{fn}({fam}) changed {k} from {v!r} to {cvals[k]!r} [{label}]", None)
-        if (cm.spot, cm.r, cm.d) != (model.spot, model.r, model.d):
-            sh.violation(f"C20:calib:{fn}:market-data-changed:{fam}",
-                         f"spot/r/d {(model.spot, model.r, model.d)} -> {(cm.spot, cm.r, cm.d)} [{label}]", None)
-        # behaves like the model constructed directly from its values (derived fields in sync)
-        mine = observe_models(fam, cm.levy_model.parameters, r, d, spot)
-        ref = observe_models(fam, make_parameters(fam, cvals), r, d, spot)
-        mine["exp:process_drift(returned)"] = _obs(lambda: float(cm.process_drift()))
-        ref["exp:process_drift(returned)"] = ref["exp:process_drift"]
-        mine["exp:omega(returned)"] = _obs(lambda: float(cm.omega))
-        ref["exp:omega(returned)"] = ref["exp:omega"]
-        sh.count("evaluations", len(ref))
-        for name in sorted(ref):
-            a_, b_ = mine.get(name, ("missing",)), ref[name]
-            if a_[0] == "missing" or not _obs_equal(a_, b_):
-                if name.startswith("field:"):
-                    key = f"C20:calib:{fn}:derived-field-stale-in-returned-model:{fam}:{name[6:]}"
-                else:
-                    key = f"C20:calib:{fn}:returned-model-differs-from-directly-constructed-model:{fam}:{_obs_name_class(name)}"
-                sh.violation(key, f"{fn}({fam}) [{label}] with {cvals}: {name} = {a_[1] if len(a_) > 1 else None!r} on the "
-                                  f"returned model, {b_[1]!r} on the model constructed directly", {"returned": a_, "fresh": b_})
-        if T == 1.0 and vol == 0.2:
+        res = _judge_default_result(sh, case, fam, values, type(model), (model.spot, model.r, model.d), cm, exc, T, vol, label)
+        if res and T == 1.0 and case["vol"] == 0.2 and case.get("route", "ctor") == "ctor":
             sh.sample({"sub": "calib-default", "family": fam, "start": values, "T": T, "vol": vol, "attempt": label,
-                       "calibrated": {pname: xv}, "atm_call": p_cm, "black_scholes": market})
+                       "calibrated": {_default_entry(sh, U, fam)[0]: res[0]}, "atm_call": res[1], "black_scholes": res[2]})
+    _check_behaviour(sh, fn, fam, model, values, r, d, spot, attempts[-1][0])
     sh.cls(f"calib:default:{fam}")
+    sh.cls(f"calib:route:{case.get('route', 'ctor')}")
+    sh.cls("calib:volatility:" + ("omitted" if case["vol"] is None else "given"))
+    sh.cls("calib:call-form:" + case.get("form", "keyword"))
+
+
+# ----------------------------------------------------------------------------------------------------------------------
+# histories of calibrations on re-used models
+# ----------------------------------------------------------------------------------------------------------------------
+
+# operations; slots: A = the family's first start set, B = same family, second start set, same market data,
+# C = a model with other market data built ON A's PARAMETERS OBJECT (shared), D = a model of the next family
+HIST_ENV = {"r": 0.02, "d": 0.0, "spot": 100.0}
+HIST_ENV_C = {"r": 0.05, "d": 0.02, "spot": 80.0}
+HIST_OPS = [
+    ["default", "A", 1.0, 0.2],
+    ["default", "A", 0.25, None],
+    ["atm", "A", 1, 1.0, 0.2],
+    ["product", "A", 0, "put", 1.1, 0.3, 0.25],
+    ["default", "B", 1.0, 0.2],
+    ["default", "D", 1.0, 0.2],
+    ["default", "C", 1.0, 0.2],
+    ["use", "A"],
+    ["deepcopy", "A"],
+    ["adopt", "A"],
+]
+_H_CALIB = [0, 1, 2, 3, 4, 5, 6]
+_H_USE, _H_COPY, _H_ADOPT = 7, 8, 9
+
+
+def _history_valid(seq):
+    """adopt needs a default calibration of A before it; sequences of non-calibrations only say nothing new"""
+    have = False
+    for i in seq:
+        if i == _H_ADOPT and not have:
+            return False
+        if i in (0, 1):
+            have = True
+    return any(i in _H_CALIB for i in seq)
+
+
+def _history_cases(tier):
+    n = len(HIST_OPS)
+    seqs = [[i] for i in range(n)] + [[i, j] for i in range(n) for j in range(n)]
+    if tier == "thorough":
+        seqs += [[i, j, k] for i in range(n) for j in range(n) for k in range(n)]
+    else:
+        # calibrate - use / deep copy / adopt the calibrated model - calibrate again
+        seqs += [[i, j, k] for i in _H_CALIB for j in (_H_USE, _H_COPY, _H_ADOPT) for k in _H_CALIB]
+    return [s for s in seqs if _history_valid(s)]
+
+
+def _sub_calib_history(sh, case):
+    import copy
+
+    from rpylib.model import utils as U
+
+    fam = case["family"]
+    other = FAMILIES[(FAMILIES.index(fam) + 1) % len(FAMILIES)]
+    e0, eC = HIST_ENV, HIST_ENV_C
+
+    class Slot:
+        def __init__(self, fam, values, env, model):
+            self.fam, self.values, self.env, self.model = fam, dict(values), env, model
+
+    a = Slot(fam, STARTS[fam][0], e0, make_exp_model(fam, STARTS[fam][0], e0["r"], e0["d"], e0["spot"]))
+    slots = {
+        "A": a,
+        "B": Slot(fam, STARTS[fam][1], e0, make_exp_model(fam, STARTS[fam][1], e0["r"], e0["d"], e0["spot"])),
+        "C": Slot(fam, STARTS[fam][0], eC, _classes(fam).exponential_of_levy_model(
+            spot=eC["spot"], r=eC["r"], d=eC["d"], parameters=a.model.levy_model.parameters)),
+        "D": Slot(other, STARTS[other][0], e0, make_exp_model(other, STARTS[other][0], e0["r"], e0["d"], e0["spot"])),
+    }
+    watched = [("A", slots["A"]), ("B", slots["B"]), ("C", slots["C"]), ("D", slots["D"])]
+    last_default = None
+    done = []
+    for step, i in enumerate(case["ops"]):
+        op = HIST_OPS[i]
+        where = "after " + " > ".join(done) if done else "first operation"
+        done.append("-".join(str(x) for x in op))
+        kind, name = op[0], op[1]
+        sl = slots[name]
+        if kind == "use":
+            _check_behaviour(sh, "history", sl.fam, sl.model, sl.values, sl.env["r"], sl.env["d"], sl.env["spot"],
+                             f"{done[-1]}, {where}", role="re-used-model")
+            continue
+        if kind == "deepcopy":
+            new = Slot(sl.fam, sl.values, sl.env, copy.deepcopy(sl.model))
+            slots[name] = new
+            watched.append((name + "'", new))
+            continue
+        if kind == "adopt":
+            cm, cvals = last_default
+            new = Slot(sl.fam, cvals, sl.env, cm)
+            slots[name] = new
+            watched.append((name + "-calibrated", new))
+            continue
+        # a calibration on slot `name`
+        env = dict(sl.env)
+        before = [snap(w.model) for _, w in watched]
+        models = [w.model for _, w in watched]
+        label = f"{done[-1]}, {where}"
+        if kind == "default":
+            T = op[2]
+            kw, vol = _vol_kwargs(U, U.run_default_calibration, op[3])
+            fn = "run_default_calibration"
+            attempts = _call_with_seam_fallback(sh, fn, lambda: U.run_default_calibration(model=sl.model, maturity=T, **kw), models)
+        elif kind == "atm":
+            pname, interval = CALIB[sl.fam][op[2]]
+            T = op[3]
+            kw, vol = _vol_kwargs(U, U.calibrate_model_parameter_to_atm_call, op[4])
+            fn = "calibrate_model_parameter_to_atm_call"
+            product = make_product("call", env["spot"], T)
+            market = bs_call(env["spot"], env["spot"], env["r"], env["d"], vol, T)
+            attempts = _call_with_seam_fallback(
+                sh, fn, lambda: U.calibrate_model_parameter_to_atm_call(model=sl.model, parameter=pname,
+                                                                        parameter_interval=interval, maturity=T, **kw), models)
+        else:
+            pname, interval = CALIB[sl.fam][op[2]]
+            T = op[6]
+            fn = "calibrate_model_parameter"
+            product = make_product(op[3], op[4] * env["spot"], T)
+            xstar = interval[0] + op[5] * (interval[1] - interval[0])
+            try:
+                market = fresh_price(sl.fam, dict(sl.values, **{pname: xstar}), env["r"], env["d"], env["spot"], product)
+            except Exception:
+                sh.count("oracle_inconclusive")
+                continue
+            attempts = _call_with_seam_fallback(
+                sh, fn, lambda: U.calibrate_model_parameter(model=sl.model, parameter=pname, parameter_interval=interval,
+                                                            product=product, market_price=market), models)
+        for att_label, res, exc, after in attempts:
+            lab = f"{att_label}; {label}"
+            for (wname, w), b, af in zip(watched, before, after):
+                if w is sl:
+                    _check_untouched(sh, fn, w.fam, b, af, lab)
+                else:
+                    _check_untouched(sh, fn, w.fam, b, af, lab + f"; the other model is {wname}", role="model-not-given-modified")
+            if kind == "default":
+                got = _judge_default_result(sh, env, sl.fam, sl.values, type(sl.model),
+                                            (sl.model.spot, sl.model.r, sl.model.d), res, exc, T, vol, lab)
+                if exc is None and got and name == "A":
+                    last_default = (res, param_values(sl.fam, res.levy_model.parameters))
+            else:
+                _judge_parameter(sh, fn, env, sl.fam, sl.values, pname, interval, product, market, res, exc, lab)
+        sh.cls(f"history:{kind}:{name}:step{step}")
+    # at the end every model of the scene behaves like a model constructed directly with its values
+    for wname, w in watched:
+        _check_behaviour(sh, "history", w.fam, w.model, w.values, w.env["r"], w.env["d"], w.env["spot"],
+                         f"model {wname} after " + " > ".join(done), role="re-used-model")
+    sh.outcome((fam, tuple(case["ops"])))
